@@ -1,5 +1,223 @@
-use crate::common::Ctx;
-pub fn run(_ctx: &Ctx, _replay: Option<&serde_json::Value>) -> i32 {
-    eprintln!("not implemented");
-    2
+//! C18 — runaway recursion ends in a call-depth error, never in a crash.
+//!
+//! Every program of a recursion grammar (recursion kind x per-call expression nesting depth x
+//! nesting operator) is run through the real release `blots` binary under RLIMIT_STACK = 8 MiB:
+//! the unbounded variant must exit 1 with "maximum call depth", the bounded variant (a few hundred
+//! calls deep) must exit 0 with the right value.
+
+use crate::common::*;
+use crate::proc::{run_blots, scratch_file};
+use serde_json::{Value as J, json};
+
+const STACK: u64 = 8 << 20;
+
+#[derive(Clone, Copy, Debug, PartialEq)]
+enum Wrap {
+    Plus,
+    Neg,
+    List,
+    CallArg,
+}
+
+const WRAPS: [Wrap; 4] = [Wrap::Plus, Wrap::Neg, Wrap::List, Wrap::CallArg];
+
+/// Wrap `inner` in `d` levels of the nesting construct. Returns (text, additive contribution).
+fn wrap(w: Wrap, d: usize, inner: &str) -> String {
+    let mut s = inner.to_string();
+    match w {
+        Wrap::Plus => {
+            for _ in 0..d {
+                s = format!("(1 + {})", s);
+            }
+        }
+        Wrap::Neg => {
+            for _ in 0..d {
+                s = format!("(-{})", s);
+            }
+        }
+        Wrap::List => {
+            for _ in 0..d {
+                s = format!("[{}]", s);
+            }
+            for _ in 0..d {
+                s = format!("{}[0]", s);
+            }
+        }
+        Wrap::CallArg => {
+            for _ in 0..d {
+                s = format!("id({})", s);
+            }
+        }
+    }
+    s
+}
+
+struct Kind {
+    name: &'static str,
+    /// program text given the wrapped recursive step; `{STEP}` is replaced by the wrapped call,
+    /// `{NEXT}` inside the step by the argument expression
+    defs: &'static str,
+    /// the recursive call expression (as used inside the wrap)
+    call: &'static str,
+    /// levels for the bounded variant
+    levels: usize,
+}
+
+fn kinds() -> Vec<Kind> {
+    vec![
+        Kind { name: "self", defs: "f = n => {GUARD}{STEP}", call: "f({NEXT})", levels: 300 },
+        Kind { name: "mutual", defs: "f = n => {GUARD}{STEP}\ng = n => {GUARDG}{STEPG}", call: "g({NEXT})", levels: 300 },
+        Kind { name: "via-callback", defs: "f = n => {GUARD}{STEP}", call: "([{NEXT}] via f)[0]", levels: 300 },
+        Kind { name: "map-callback", defs: "f = n => {GUARD}{STEP}", call: "map([{NEXT}], f)[0]", levels: 150 },
+        Kind { name: "reduce-callback", defs: "f = n => {GUARD}{STEP}", call: "reduce([{NEXT}], (a, x) => f(x), 0)", levels: 150 },
+        Kind { name: "filter-callback", defs: "f = n => {GUARD}{STEP}", call: "(len(filter([{NEXT}], x => f(x) >= 0)) - 1)", levels: 150 },
+        Kind { name: "do-block", defs: "f = n => {GUARD}do {\n  m = {NEXT}\n  r = {STEPM}\n  return r\n}", call: "f(m)", levels: 300 },
+        Kind { name: "record-wrapped", defs: "f = n => {GUARD}{STEP}", call: "{k: f({NEXT})}.k", levels: 300 },
+        Kind { name: "into", defs: "f = n => {GUARD}{STEP}", call: "(({NEXT}) into f)", levels: 300 },
+        Kind { name: "conditional-arms", defs: "f = n => {GUARD}{STEP}", call: "(if n == n then f({NEXT}) else f({NEXT}))", levels: 300 },
+        Kind { name: "closure-in-closure", defs: "mk = k => (n => {GUARD}{STEP})\nf = mk(1)", call: "mk(k)({NEXT})", levels: 300 },
+    ]
+}
+
+struct Prog {
+    kind: &'static str,
+    wrap: Wrap,
+    depth: usize,
+    bounded: bool,
+    source: String,
+    expected: Option<f64>,
+}
+
+fn build(k: &Kind, w: Wrap, d: usize, bounded: bool) -> Prog {
+    let next = if bounded { "n - 1" } else { "n + 1" };
+    let guard = if bounded { "if n <= 0 then 0 else " } else { "" };
+    let call = k.call.replace("{NEXT}", next);
+    let step = wrap(w, d, &call);
+    // do-block kind: the step refers to m
+    let step_m = wrap(w, d, k.call);
+    let mut defs = k
+        .defs
+        .replace("{GUARD}", guard)
+        .replace("{STEPM}", &step_m)
+        .replace("{STEP}", &step)
+        .replace("{NEXT}", next);
+    if k.name == "mutual" {
+        let step_g = wrap(w, d, &format!("f({})", next));
+        defs = defs.replace("{GUARDG}", guard).replace("{STEPG}", &step_g);
+    }
+    let levels = k.levels;
+    let source = format!("id = x => x\n{}\noutput r = f({})\n", defs, if bounded { levels.to_string() } else { "0".into() });
+    // expected value of the bounded variant
+    let per_level = match w {
+        Wrap::Plus => d as f64,
+        _ => 0.0,
+    };
+    let call_levels = if k.name == "mutual" { levels } else { levels };
+    let expected = if bounded {
+        Some(match k.name {
+            // the callback's value is only tested, not accumulated
+            "filter-callback" => per_level,
+            _ => per_level * call_levels as f64,
+        })
+    } else {
+        None
+    };
+    Prog { kind: k.name, wrap: w, depth: d, bounded, source, expected }
+}
+
+fn judge(ctx: &Ctx, p: &Prog) {
+    let file = scratch_file("rec");
+    if std::fs::write(&file, &p.source).is_err() {
+        ctx.machinery_error("cannot write scratch file".into());
+        return;
+    }
+    let mut results = vec![];
+    for _ in 0..2 {
+        results.push(run_blots(&[file.clone()], None, Some(STACK)));
+        ctx.count(1);
+    }
+    let _ = std::fs::remove_file(&file);
+    let class = format!("{}|{:?}", p.kind, p.wrap);
+    let case = json!({"source": p.source, "bounded": p.bounded});
+    if results[0].code != results[1].code || results[0].signal != results[1].signal {
+        ctx.violation(Violation { kind: "nondeterministic-outcome".into(), class: class.clone(), input: p.source.clone(), expected: "same outcome twice".into(), observed: format!("{} / {}", results[0].describe(), results[1].describe()), case: case.clone() });
+        return;
+    }
+    let r = &results[0];
+    ctx.nontrivial(&format!("{}|{}|{}", class, p.depth, p.bounded));
+    if !p.bounded {
+        let ok = r.code == Some(1) && r.signal.is_none() && r.stdout.contains("maximum call depth");
+        ctx.outcome(if ok { "unbounded-call-depth-error" } else { "unbounded-other" });
+        if !ok {
+            ctx.violation(Violation {
+                kind: if r.crashed() { "crash-instead-of-call-depth-error".into() } else { "no-call-depth-error".into() },
+                class,
+                input: format!("[nesting {} x {:?}] {}", p.depth, p.wrap, p.source),
+                expected: "exit 1 with 'maximum call depth ... exceeded'".into(),
+                observed: r.describe(),
+                case,
+            });
+        }
+    } else {
+        let value = serde_json::from_str::<J>(r.stdout.trim()).ok().and_then(|j| j.get("r").and_then(|v| v.as_f64()));
+        let want = p.expected.unwrap_or(0.0);
+        let ok = r.code == Some(0) && (want.is_nan() || value == Some(want));
+        ctx.outcome(if ok { "bounded-completes" } else { "bounded-other" });
+        if !ok {
+            ctx.violation(Violation {
+                kind: if r.crashed() { "bounded-recursion-crashes".into() } else { "bounded-recursion-wrong".into() },
+                class,
+                input: format!("[nesting {} x {:?}] {}", p.depth, p.wrap, p.source),
+                expected: format!("exit 0 with r = {}", want),
+                observed: r.describe(),
+                case,
+            });
+        }
+    }
+}
+
+pub fn run(ctx: &Ctx, replay: Option<&J>) -> i32 {
+    if let Some(r) = replay {
+        let src = r["case"]["source"].as_str().unwrap_or("");
+        let file = scratch_file("replay");
+        let _ = std::fs::write(&file, src);
+        let res = run_blots(&[file.clone()], None, Some(STACK));
+        let _ = std::fs::remove_file(&file);
+        println!("{}\n-> {}", src, res.describe());
+        let bounded = r["case"]["bounded"].as_bool().unwrap_or(false);
+        let ok = if bounded { res.code == Some(0) } else { res.code == Some(1) && res.stdout.contains("maximum call depth") };
+        if !ok {
+            println!("VIOLATION property=C18 replay=<replayed>");
+            return 1;
+        }
+        return 0;
+    }
+    let depths: Vec<usize> = if ctx.quick() { vec![1, 2, 4, 8, 16, 32] } else { (1..=32).collect() };
+    let ks = kinds();
+    let mut progs = vec![];
+    for k in &ks {
+        for w in WRAPS {
+            for &d in &depths {
+                progs.push(build(k, w, d, false));
+                progs.push(build(k, w, d, true));
+            }
+        }
+    }
+    ctx.set("programs", json!(progs.len()));
+    ctx.set("stack_limit_bytes", json!(STACK));
+    par_for(progs.len(), |i| judge(ctx, &progs[i]));
+    crate::proc::cleanup_scratch();
+    ctx.sample(json!({"unbounded": progs[0].source}));
+    ctx.sample(json!({"bounded": progs[progs.len() / 2 + 1].source}));
+    ctx.sample(json!({"deep": truncate(&progs[progs.len() - 2].source, 400)}));
+    ctx.require_outcome("unbounded-call-depth-error", 50);
+    ctx.require_outcome("bounded-completes", 50);
+    ctx.assume("the release binary built from /repo's working tree (hooks off) run with RLIMIT_STACK = 8 MiB; nesting depths 1..32");
+    finish(
+        ctx,
+        "exploration",
+        "recursion grammar: 11 recursion kinds (self, mutual, via / map / reduce / filter callbacks, do-block body, record-wrapped, into, conditional arms, closure-returning-closure) x 4 nesting constructs (binary +, unary -, list literal + index, call argument) x per-call nesting depth 1..32 (quick: 1,2,4,8,16,32) x {unbounded, bounded to a few hundred calls}; every program run twice through the release CLI under an 8 MiB stack limit; distinct = distinct programs",
+        true,
+        None,
+    )
 }
